@@ -456,7 +456,11 @@ def body(chk):
     for l in recs:
         r = json.loads(l)
         rec_by_id[r['id']] = r
-    # binding self-test: corrupted copies of recorded traces must be rejected
+    # binding self-test: corrupted copies of recorded traces must be rejected.
+    # Candidates are derived here (one TLC pass for everything) but only
+    # those whose base trace turns out to be accepted are judged below, and
+    # only when the corruption changed the projected data of its base.
+    problems = []      # self-test / machinery complaints; violations win
     mutants = []
     mrng = random.Random(chk.seed + 99)
     cands = [r for r in rec_by_id.values() if 'calls' in r and
@@ -464,13 +468,17 @@ def body(chk):
              r['code']['LoutM'] == r['g']['Lout'] * r['mpf']]
     mrng.shuffle(cands)
     seen_kinds = {}
+    want = 40 if quick else 200
     for r in cands:
-        if len(mutants) >= (40 if quick else 200):
+        if len(mutants) >= 2 * want:
             break
         m = mutate(r, mrng)
         if m is None:
             continue
-        if seen_kinds.get(m[0], 0) >= (8 if quick else 40):
+        k = len(m[1]['calls'])
+        if m[1]['calls'] == r['calls'][:k]:
+            continue               # nothing changed: not a corruption
+        if seen_kinds.get(m[0], 0) >= (16 if quick else 80):
             continue
         seen_kinds[m[0]] = seen_kinds.get(m[0], 0) + 1
         mutants.append(m[1])
@@ -495,26 +503,43 @@ def body(chk):
     if not chk.args.replay and (not quick or chk.args.selftest):
         try:
             seeded = seeded_fault_selftest(chk, sc)
-        except tlc.TLCError as ex:
-            raise MachineryError(str(ex))
+        except (tlc.TLCError, MachineryError) as ex:
+            problems.append(str(ex)[:600])
         phases['seeded_faults_s'] = round(time.time() - t1, 1)
         t1 = time.time()
-    designs = [f.result() for f in dfut]
+    designs = []
+    mres = []
+    for fut, dst in [(f, designs) for f in dfut] + [(f, mres) for f in mfut]:
+        try:
+            dst.append(fut.result())
+        except MachineryError as ex:
+            problems.append(str(ex)[:600])
     phases['waiting_for_design_runs_s'] = round(time.time() - t1, 1)
-    mres = [f.result() for f in mfut]
 
     ncalls = nent = nleft = ndel = 0
     nontrivial = set()
     kinds = {}
     accepted_mutants = []
     rejected_mutants = 0
+    base_ok = set(v['id'] for v in verdicts
+                  if '~' not in v['id'] and not v['failed'])
+    seen_kinds = {}
+    for v in verdicts:
+        if '~' not in v['id']:
+            continue
+        # a corrupted copy of an ACCEPTED trace: the verdict has to change
+        base, what = v['id'].split('~')
+        what = what.split('@')[0]
+        if base not in base_ok or rejected_mutants + len(accepted_mutants) \
+                >= want:
+            continue
+        seen_kinds[what] = seen_kinds.get(what, 0) + 1
+        if v['failed'] and not v['known']:
+            rejected_mutants += 1
+        else:
+            accepted_mutants.append(v['id'])
     for v in verdicts:
         if '~' in v['id']:
-            # a corrupted trace: the verdict has to change
-            if v['failed'] and not v['known']:
-                rejected_mutants += 1
-            else:
-                accepted_mutants.append(v['id'])
             continue
         s = by_id[v['id']]
         r = rec_by_id[v['id']]
@@ -522,8 +547,8 @@ def body(chk):
         nent += v['entered']
         nleft += v['left']
         ndel += v['deleted']
-        if not v['links']:
-            raise MachineryError('harness link broken in %s' % v['id'])
+        if not v['links'] and not v['failed']:
+            problems.append('harness link broken in %s' % v['id'])
         if v['entered'] >= 2 and v['left'] >= 1 and v['deleted'] >= 1:
             nontrivial.add(json.dumps(
                 [s.get(k) for k in ('mode', 'family', 'dim', 'flow', 'dx', 'Lin',
@@ -531,8 +556,8 @@ def body(chk):
                                 'ghosts', 'ops')], sort_keys=True))
         failed = [f for f in v['failed'] if f[1] != 'HarnessNotUnique']
         if v['failed'] and not failed:
-            raise MachineryError('identities not unique before a call in %s'
-                                 % v['id'])
+            problems.append('identities not unique / arrays not aligned '
+                            'before a call in %s' % v['id'])
         if v['drift'] and not v['failed']:
             chk.note_drift('InletOutlet', '%s call %s' % (
                 v['id'], sorted(v['drift'])[0]))
@@ -571,13 +596,21 @@ def body(chk):
         rejected = r['violation'] is not None
         minfo[m] = 'rejected' if rejected else 'accepted'
         if rejected == MUTANTS[m]:
-            raise MachineryError(
+            problems.append(
                 'design self-test: mutant mechanism %s was %s' % (m, minfo[m]))
     if accepted_mutants:
-        raise MachineryError('binding self-test: corrupted traces accepted: '
-                             '%s' % accepted_mutants[:5])
+        problems.append('binding self-test: corrupted traces accepted: '
+                        '%s' % accepted_mutants[:5])
     if not chk.args.replay and rejected_mutants == 0:
-        raise MachineryError('binding self-test produced no corrupted trace')
+        problems.append('binding self-test produced no corrupted trace of '
+                        'an accepted trace')
+    # a tree that violates the property gives exit 1 with VIOLATION lines;
+    # self-test complaints are exit 2 only when nothing was violated
+    if problems and not chk.violations:
+        raise MachineryError(' | '.join(problems))
+    for pr in problems:
+        print('SELFTEST-NOTE (violations are reported; not a verdict): %s'
+              % pr[:300])
     sample = None
     for v in verdicts:
         if '~' not in v['id'] and v['entered'] >= 1 and v['left'] >= 1 \
@@ -592,6 +625,7 @@ def body(chk):
         states=dstates or st['distinct'],
         transitions=dtrans or st['generated'],
         design_runs=dinfo, design_mutants=minfo, phases=phases,
+        selftest_notes=problems,
         seeded_faults_in_real_update=seeded,
         traces_validated_against_impl=len(verdicts) - len(mutants),
         histories_with_nonlocal_rows=sum(
